@@ -378,6 +378,8 @@ SOp(w, ev) ==
                       IN mk(w2, ev.c)
                  ELSE mk(EvMut(GiveBack(w, s, ev.c, "library"), s, h[1], FALSE), old)
        [] ev.cls = "remove" -> LET r == DoRemove(w, s, h) IN mk(GiveBack(r.w, s, r.res, "harness"), r.res)
+       [] ev.cls = "gremove" ->   \* GenericWriteStorage::remove: nothing is returned, the library destroys the value
+            LET r == DoRemove(w, s, h) IN [w |-> GiveBack(r.w, s, r.res, "library"), f |-> {}]
        [] ev.cls = "gmod"   ->
             IF DeadOrUnknown(w, h) THEN mk(w, Absent)
             ELSE LET old == Cur(w, s, h)
@@ -430,7 +432,10 @@ WOp(w, ev) ==
                                  !.zdes = IF w.zst[s] THEN w.zdes + Cardinality(all) ELSE w.zdes],
                 f |-> {}]
        [] ev.k = "count" ->
-            [w |-> w, f |-> flag(ev.n # Cardinality(DOMAIN w.comp[s]) \/ ev.b # (DOMAIN w.comp[s] = {}), "count / is_empty", Cardinality(DOMAIN w.comp[s]))]
+            \* (mask bits that survived an interrupted operation - w.resid - may still be counted)
+            LET c == Cardinality(DOMAIN w.comp[s])
+                r == Cardinality(w.resid[s] \ {h[1] : h \in DOMAIN w.comp[s]})
+            IN [w |-> w, f |-> flag(ev.n < c \/ ev.n > c + r \/ ev.b # (ev.n = 0), "count / is_empty", <<c, r>>)]
        [] ev.k = "join" ->
             LET exp == [i \in 1..Len(mem) |-> <<mem[i][1], w.comp[s][mem[i]]>>]
             IN [w |-> w, f |-> flag(ev.items # exp, "joined items", exp)]
@@ -457,6 +462,8 @@ WOp(w, ev) ==
                              ELSE Wr(ww, i + 1)
             IN [w |-> Wr(w, 1), f |-> flag(got # exp, "items of restricted join", exp)]
        [] ev.k = "slice" ->
+            \* (after a caught destructor panic the raw slot view may show leaked values: unspecified)
+            IF w.fault THEN [w |-> w, f |-> {}] ELSE
             IF ev.kind = "vec"
             THEN LET exp == [i \in 1..Len(mem) |-> <<mem[i][1], w.comp[s][mem[i]]>>]
                  IN [w |-> w, f |-> flag(ev.items # exp, "slice at occupied indices", exp)]
@@ -485,7 +492,11 @@ WOp(w, ev) ==
                                      ELSE LET h == CHOOSE x \in hs : TRUE
                                           IN Wr([ww EXCEPT !.comp[s][h] = <<ww.comp[s][h][1], ev.writes[i][3]>>], i + 1)
             IN [w |-> Wr(w, 1), f |-> {}]
-       [] ev.k = "setemit" -> [w |-> [w EXCEPT !.emit[s] = ev.b], f |-> {}]
+       [] ev.k = "setemit" ->
+            [w |-> [w EXCEPT !.emit[s] = ev.b],
+             f |-> IF Has(ev, "got") /\ ev.got # ev.b THEN {F("C12", "event_emission() does not report the state just set", <<s, ev.b, ev.got>>)} ELSE {}]
+       [] ev.k = "flagev" ->     \* Storage::flag: an event of the caller's choosing goes straight into the channel
+            [w |-> IF w.trk[s] = "none" THEN w ELSE [w EXCEPT !.evq[s] = Append(@, <<ev.ev, ev.id, FALSE>>)], f |-> {}]
 
 \* an insertion at an index the membership mask cannot hold (>= 2^24): the library
 \* panics after the raw insert; the value must be taken out and destroyed again
